@@ -101,6 +101,16 @@ package gorm
 //@   ensures skiphooks: result.Statement.SkipHooks == (db.Statement.SkipHooks || config.SkipHooks) [C13]
 
 //@ # ---------- chain methods write only memory allocated by the call (C06) ----------
+//@ # the logger is a plug-in: it is assumed to read what it is given and to write nothing the library looks at again
+//@ iface Interface.Info(recv, ctx, msg, data)
+//@   abstract logger plug-in; assumed to leave the library's memory alone
+//@   pure
+//@ iface Interface.Warn(recv, ctx, msg, data)
+//@   abstract logger plug-in; assumed to leave the library's memory alone
+//@   pure
+//@ iface Interface.Error(recv, ctx, msg, data)
+//@   abstract logger plug-in; assumed to leave the library's memory alone
+//@   pure
 //@ iface ErrorTranslator.Translate(recv, err)
 //@   abstract dialect plug-in; assumed to return an error for an error
 //@   pure
